@@ -13,6 +13,7 @@ R-AXISMETA    each index term equals (limit[k] - offset_j)/sampling_j built from
 from __future__ import annotations
 
 import ast
+import copy
 import re
 
 from ..cfg import DataFlow
@@ -94,7 +95,88 @@ def _slice_bounds(df: DataFlow, at: int, expr: ast.expr, f):
         if expr.lower is None or expr.upper is None:
             raise AnalysisError(f"{f.qualname}: half-open slice literal")
         return [(expr.lower, expr.upper, at)]
+    if isinstance(expr, ast.Call) and f.cls is not None and (call_name(expr) or "").startswith("self."):
+        # a helper method of the class that returns slice(a, b): inline it (depth 1), once per reaching
+        # definition of each argument variable (the argument may be the parameter or a default substituted
+        # under `if <param> is None`)
+        helper = f.cls.find_method((call_name(expr) or "")[5:])
+        if helper is not None:
+            return _inline_slice_helper(df, at, expr, helper, f)
     raise AnalysisError(f"{f.qualname}: cannot interpret slice expression {norm_text(expr)[:50]}")
+
+
+class _Subst(ast.NodeTransformer):
+    def __init__(self, mapping):
+        self.mapping = mapping
+
+    def visit_Name(self, n):
+        if isinstance(n.ctx, ast.Load) and n.id in self.mapping:
+            return copy.deepcopy(self.mapping[n.id])
+        return n
+
+    def visit_Subscript(self, n):
+        n = self.generic_visit(n)
+        # (a, b)[k] -> element k
+        if isinstance(n.value, (ast.Tuple, ast.List)) and isinstance(n.slice, ast.Constant) and \
+                isinstance(n.slice.value, int) and -len(n.value.elts) <= n.slice.value < len(n.value.elts):
+            return n.value.elts[n.slice.value]
+        return n
+
+
+def _inline_slice_helper(df: DataFlow, at: int, call: ast.Call, helper, f):
+    from ..model import bind_args
+
+    rets = [r for r in walk_no_nested(helper.node) if isinstance(r, ast.Return) and r.value is not None]
+    if len(rets) != 1 or not (isinstance(rets[0].value, ast.Call) and call_name(rets[0].value) == "slice"
+                              and len(rets[0].value.args) == 2):
+        raise AnalysisError(f"{helper.qualname}: helper does not end in a single `return slice(a, b)`")
+    hdf = DataFlow(helper.node)
+    hat = hdf.cfg.node_of(rets[0]).idx
+
+    def resolve(e, node, depth=0):
+        """expression of the helper with its straight-line locals inlined"""
+        if depth > 20:
+            raise AnalysisError(f"{helper.qualname}: local definitions too deep")
+        mapping = {}
+        for n in ast.walk(e):
+            if isinstance(n, ast.Name) and isinstance(n.ctx, ast.Load) and n.id not in mapping:
+                defs = hdf.reaching(node, n.id)
+                if defs and all(d.kind == "param" for d in defs):
+                    continue
+                if not defs:
+                    continue  # global / builtin (int, slice, ...)
+                d = hdf.single_def(node, n.id)
+                if d is None or d.kind != "assign" or d.value is None:
+                    raise AnalysisError(f"{helper.qualname}: local `{n.id}` is not a single straight-line definition")
+                mapping[n.id] = resolve(d.value, d.node, depth + 1)
+        return _Subst(mapping).visit(copy.deepcopy(e))
+
+    lo_h, hi_h = (resolve(a, hat) for a in rets[0].value.args)
+    is_static = "staticmethod" in helper.decorators
+    bound = bind_args(call, helper, skip_self=not is_static)
+    if not bound:
+        raise AnalysisError(f"{f.qualname}: cannot bind the arguments of {norm_text(call)[:50]}")
+    # alternatives for argument variables with several reaching definitions in the caller
+    alts = [{}]
+    for pname, arg in bound.items():
+        choices = [arg]
+        if isinstance(arg, ast.Name):
+            defs = df.reaching(at, arg.id)
+            if len(defs) > 1:
+                choices = []
+                for d in defs:
+                    if d.kind == "param":
+                        choices.append(arg)
+                    elif d.kind == "assign" and d.value is not None:
+                        choices.append(d.value)
+                    else:
+                        raise AnalysisError(f"{f.qualname}: `{arg.id}` defined by {d.kind}")
+        alts = [dict(a, **{pname: c}) for a in alts for c in choices]
+    out = []
+    for a in alts:
+        sub = _Subst(a)
+        out.append((sub.visit(copy.deepcopy(lo_h)), sub.visit(copy.deepcopy(hi_h)), at))
+    return out
 
 
 def run(ctx) -> None:
@@ -155,6 +237,18 @@ def run(ctx) -> None:
                 nzf = FlowNormalizer(df, node_, identity_calls={"int"})
                 whole = nzf.norm(lo_).is_zero() and nzf.norm(hi_) == nzf.norm(
                     ast.parse(f"self.shape[{j - 2}]", mode="eval").body)
+                # ... and exactly so: an upper index obtained by truncating a float quotient, int(x / s), can come
+                # out one short of the number of bins
+                inexact = [c for e_ in (lo_, hi_) for c in ast.walk(e_) if isinstance(c, ast.Call)
+                           and call_name(c) == "int" and any(isinstance(b, ast.BinOp) and isinstance(b.op, ast.Div)
+                                                              for b in ast.walk(c))]
+                if whole and inexact and not nzf.norm(hi_).is_zero():
+                    ctx.violation("R-AXISMETA", f"{integ.qualname}:{fam}-axis no-limits", integ.loc(sub),
+                                  f"without {fam} limits the upper index is `{norm_text(hi_)[:80]}`: algebraically the "
+                                  "number of bins, but computed by truncating a floating-point quotient, which yields "
+                                  "n-1 for some geometries — the outermost bin is silently dropped",
+                                  key_detail="full-inexact")
+                    continue
             ctx.check(whole, "R-AXISMETA", f"{integ.qualname}:{fam}-axis no-limits", integ.loc(sub),
                       "without limits the whole axis is summed",
                       f"without {fam} limits base axis {j - 2} is sliced "
